@@ -524,7 +524,7 @@ func init() {
 		func(e *vh.Env) []c04Sched {
 			var cs []c04Sched
 			for _, st := range allStrategies {
-				cs = append(cs, c04Sched{"expiry-vs-eject", st}, c04Sched{"probe-vs-eject", st})
+				cs = append(cs, c04Sched{"expiry-vs-eject", st}, c04Sched{"probe-vs-eject", st}, c04Sched{"expiry-vs-expiry", st})
 			}
 			return cs
 		},
@@ -548,7 +548,22 @@ func init() {
 				}
 				live := sys.liveBackend("b0")
 				var ejectedAt time.Time
-				if c.Kind == "expiry-vs-eject" {
+				var codes [2]int
+				var by [2]string
+				if c.Kind == "expiry-vs-expiry" {
+					// b0's window has elapsed, b1 is still out: two requests arrive together and both find b0 again
+					sys.LB.MarkBackendUnhealthy(live, 5*time.Second)
+					sys.LB.MarkBackendUnhealthy(sys.liveBackend("b1"), time.Hour)
+					time.Sleep(6 * time.Second)
+					s.Only = map[string]bool{"lb.find.picked": true, "lb.expire.upgrade": true, "lb.expire.metrics": true}
+					for k := 0; k < 2; k++ {
+						k := k
+						s.Go(func() {
+							rec := sys.call("GET", "/again", fmt.Sprintf("10.4.4.%d:9", k), nil, nil)
+							codes[k], by[k] = rec.Code, servedBy(rec)
+						})
+					}
+				} else if c.Kind == "expiry-vs-eject" {
 					sys.LB.MarkBackendUnhealthy(live, 5*time.Second)
 					time.Sleep(6 * time.Second) // the first window has elapsed
 					s.Go(func() { sys.LB.IsBackendHealthy(live) })
@@ -566,6 +581,15 @@ func init() {
 						return
 					}
 					_ = ejectedAt
+					if c.Kind == "expiry-vs-expiry" {
+						for k := 0; k < 2; k++ {
+							if codes[k] != 200 || by[k] != "b0" {
+								o.Viol("C04|sched|no-traffic-after-window|"+c.Strategy, fmt.Sprintf("%s: b0's unhealthy window had elapsed (b1 still ejected) and two requests arrived together: request %d got %d from %q; trace %v", c.Strategy, k, codes[k], by[k], s.Trace), map[string]any{"prefix": s.Choices, "trace": s.Trace})
+								return
+							}
+						}
+						return
+					}
 					// the fresh window must stand: no healthy report, no traffic
 					infos, _ := listBackends(sys.admin())
 					for _, bi := range infos {
